@@ -82,6 +82,12 @@ type Source struct {
 	// stopStream is a function that closes the context of the stream
 	stopStream context.CancelFunc
 
+	// stopAsync releases the persist callback registered by Open once the
+	// connector is going down (Teardown, or Open itself failing): from then
+	// on nobody reads errs, and a callback blocked on it would keep
+	// Persister.WaitPendingWrites - and with it StopAndWait - from returning.
+	stopAsync context.CancelFunc
+
 	// streamCtx is the context that stopStream cancels — the single context
 	// shared by both directions of the plugin stream (see run). The deferred-
 	// ack delivery goroutine observes streamCtx.Done() as the authoritative
@@ -215,6 +221,9 @@ func (s *Source) Open(ctx context.Context) (err error) {
 				s.Instance.logger.Err(ctx, tdErr).Msg("could not tear down source connector plugin")
 			}
 			s.plugin = nil
+			if s.stopAsync != nil {
+				s.stopAsync()
+			}
 		}
 	}()
 
@@ -232,9 +241,14 @@ func (s *Source) Open(ctx context.Context) (err error) {
 		// when a lifecycle event is successfully triggered we consider the config active
 		s.Instance.LastActiveConfig = s.Instance.Config
 		// persist connector in the next batch to store last active config
+		asyncCtx, stopAsync := context.WithCancel(context.Background())
+		s.stopAsync = stopAsync
 		err := s.Instance.persister.Persist(ctx, s.Instance, func(err error) {
 			if err != nil {
-				s.errs <- err
+				select {
+				case s.errs <- err:
+				case <-asyncCtx.Done():
+				}
 			}
 		})
 		if err != nil {
@@ -357,6 +371,9 @@ func (s *Source) Teardown(ctx context.Context) error {
 	if s.plugin == nil {
 		s.Instance.Unlock()
 		return plugin.ErrPluginNotRunning
+	}
+	if s.stopAsync != nil {
+		s.stopAsync()
 	}
 	s.Instance.Unlock()
 
